@@ -228,6 +228,33 @@ def _hist_job(job):
     return out
 
 
+@st.composite
+def typedef_library(draw):
+    """include.yaml / example.yaml: typedefs that name the headers which define them (c_header,
+    cxx_header - the same file or one per language), used together in one wrapper header."""
+    import yaml
+    n = draw(st.integers(2, 5))
+    decls = []
+    tnames = []
+    for i in range(n):
+        base = draw(st.sampled_from(["int", "long", "double", "size_t", "int"]))
+        tn = draw(st.sampled_from(["IndexType", "OffsetType", "StatusType", "WeightType", "KeyType", "RankType"])) + str(i)
+        stem = draw(st.sampled_from(["index", "offset", "status", "weight", "zeta", "alpha"])) + "_%d" % i
+        fields = {"c_header": stem + ".h"}
+        fields["cxx_header"] = stem + (".h" if draw(st.integers(0, 3)) else ".hpp")
+        decls.append({"decl": "typedef %s %s" % (base, tn), "fields": fields})
+        tnames.append(tn)
+    for j in range(draw(st.integers(1, 4))):
+        used = draw(st.lists(st.sampled_from(tnames), min_size=1, max_size=n, unique=True))
+        params = ["%s a%d" % (t, k) for k, t in enumerate(used)]
+        if draw(st.integers(0, 3)) == 0:
+            params.append("MPI_Comm comm")
+        decls.append({"decl": "%s lookup%d(%s)" % (draw(st.sampled_from(["void"] + tnames)), j, ", ".join(params))})
+    doc = {"library": "hdrs", "cxx_header": "hdrs.hpp", "language": draw(st.sampled_from(["c++", "c++", "c"])),
+           "options": {"wrap_python": draw(st.booleans())}, "declarations": decls}
+    return doc["language"], yaml.safe_dump(doc, sort_keys=False, width=1000)
+
+
 def subjects(ctx, n_corpus, n_gen):
     import random  # deterministic corpus selection from VERIF_SEED
     rnd = random.Random(ctx.seed)
@@ -245,6 +272,8 @@ def subjects(ctx, n_corpus, n_gen):
         has_class = any(d["kind"] == "class" for d in m["decls"])
         subs.append(dict(name=m["library"], yaml=smallgen.to_yaml(m), argv=[], lang=m["language"],
                          has_class=has_class, search=[], plain=True))
+    for lang, text in smallgen.sample(typedef_library(), ctx.seed + 5, max(4, n_gen // 2)):
+        subs.append(dict(name="hdrs", yaml=text, argv=[], lang=lang, has_class=False, search=[], plain=True, many_seeds=True))
     return subs
 
 
@@ -265,7 +294,10 @@ def run(ctx):
                                          max_size=2 if quick else 4, unique=True), ctx.seed, len(subs))
     jobs = []
     for i, s in enumerate(subs):
-        jobs.append((s["name"], s["yaml"], s["argv"], [0] + seed_sets[i % len(seed_sets)][:1 if quick else 3], True))
+        hseeds = [0] + seed_sets[i % len(seed_sets)][:1 if quick else 3]
+        if s.get("many_seeds"):
+            hseeds += [1, 2, 3, 42]         # order of a handful of header names: several hash seeds
+        jobs.append((s["name"], s["yaml"], s["argv"], hseeds, True))
     for out in core.pool_map(_cli_job, jobs):
         _collect(ctx, out, "ab")
     # histories
@@ -277,6 +309,7 @@ def run(ctx):
         steps = []
         for _ in range(n):
             s = dict(draw(st.sampled_from(subs)))
+            s.pop("many_seeds", None)
             s["entry"] = "create_wrapper" if (s.pop("plain") and draw(st.integers(0, 3)) == 0) else "main"
             steps.append(s)
         return steps, draw(st.integers(0, 3)) == 0
